@@ -7,6 +7,11 @@ From PowHsm Require Import Proofs.TraceLogic.
 From PowHsm Require Import Proofs.RlpProofs.
 From PowHsm Require Import Proofs.Sha256Proofs.
 From PowHsm Require Import Proofs.C05.
+From PowHsm Require Import Gen.SrcM.
+From PowHsm Require Import Proofs.SrcEquivDongleM.
+From PowHsm Require Import Proofs.SrcEquivProtoM.
+From PowHsm Require Import Proofs.SrcEquivBlockM.
+From PowHsm Require Import Proofs.SrcEquivBlockProtoM.
 Open Scope N_scope.
 
 (* sorted(key=hash) is a stable sort: permutation, ascending keys, equal keys keep the client's order *)
@@ -231,5 +236,68 @@ Theorem C05_sha_update_app :
   forall (st : sha_state) (a b : bytes),
          sha_update (sha_update st a) b = sha_update st (a ++ b).
 Proof. exact (@sha_update_app). Qed.
+
+(* TIE BY TRANSLATION (device monad): advance_blockchain of ledger/hsm2dongle.py with _do_block_operation and _send_block_header (~400 lines of Python: the brothers sorted by hash with a stable sort, the announced count, per block its metadata and chunks, the brother list on request, early success / partial success), as regenerated from the Python source text on this run, runs on EVERY world exactly as the model: same (True|False, code) or exception and the same final world - so C05_advance_blockchain_trace and the theorems it rests on describe the APDUs the translated source sends. The rlp / SHA-256 helpers are oracles tied to their models; keccak yields well-formed bytes (without that premise the statement is false: the source sorts on the re-decoded hex text) *)
+Theorem C05_source_advance_blockchain_is_model :
+  forall (keccak : bytes -> bytes) (cm : string -> pv -> list pv -> pr pv) 
+           (fuel : nat) (self : pv) (blocks : list str) (brothers : list (list str)) 
+           (w : world),
+         block_oracles_ok keccak cm ->
+         keccak_wf keccak ->
+         (S (Datatypes.length (script w)) <= fuel)%nat ->
+         srcm_HSM2Dongle__advance_blockchain fuel cm self (hexes blocks) 
+           (VList (map hexes brothers)) w =
+         mres bo_res (advance_blockchain keccak (map fromhex blocks) (map (map fromhex) brothers) w).
+Proof. exact (@srcm_advance_blockchain_ok). Qed.
+
+(* update_ancestor of the source likewise: each block handed to the device with its merge-mining fields removed *)
+Theorem C05_source_update_ancestor_is_model :
+  forall (keccak : bytes -> bytes) (cm : string -> pv -> list pv -> pr pv) 
+           (fuel : nat) (self : pv) (blocks : list str) (w : world),
+         block_oracles_ok keccak cm ->
+         (S (Datatypes.length (script w)) <= fuel)%nat ->
+         srcm_HSM2Dongle__update_ancestor fuel cm self (hexes blocks) w =
+         mres bo_res (update_ancestor (map fromhex blocks) w).
+Proof. exact (@srcm_update_ancestor_ok). Qed.
+
+(* the chunk loop both operations use *)
+Theorem C05_source_chunk_loop_is_model :
+  forall (fuel : nat) (self name desc : pv) (cmd op : N) (nexts : list N) 
+           (data : bytes) (full : bool) (initial : N) (w : world),
+         op < 256 ->
+         (S (Datatypes.length (script w)) <= fuel)%nat ->
+         srcm_HSM2Dongle___send_data_in_chunks fuel self (vN cmd) (vN op) 
+           (VList (map vN nexts)) (VBytes data) (VBool full) (vN initial) name desc w =
+         mres chunk_res (send_data_in_chunks cmd op nexts data full initial w).
+Proof. exact (@srcm_send_data_in_chunks_ok). Qed.
+
+(* the handler _advance_blockchain of ledger/protocol.py as translated (repair, the operation, result translation, except ladder) = the model's handler *)
+Theorem C05_source_advance_handler_is_model :
+  forall (keccak : bytes -> bytes) (kind : dongle_kind) (init : pm pv)
+           (cm : string -> pv -> list pv -> pr pv) (fuel : nat) (self : pv) 
+           (req : CommProtocol.obj) (blocks : list str) (brothers : list (list str)) 
+           (w : world),
+         init_ok kind init ->
+         block_oracles_ok keccak cm ->
+         keccak_wf keccak ->
+         jget (s "blocks") req = Some (jstrs blocks) ->
+         jget (s "brothers") req = Some (JArr (map jstrs brothers)) ->
+         fuel_ok kind fuel w ->
+         srcm_HSM2ProtocolLedger___advance_blockchain fuel cm init self (of_obj req) w =
+         mres rtuple_pv (LedgerProtocol.op_advance keccak kind req w).
+Proof. exact (@srcm_advance_blockchain_handler_ok). Qed.
+
+(* the handler _update_ancestor_block likewise *)
+Theorem C05_source_update_ancestor_handler_is_model :
+  forall (keccak : bytes -> bytes) (kind : dongle_kind) (init : pm pv)
+           (cm : string -> pv -> list pv -> pr pv) (fuel : nat) (self : pv) 
+           (req : CommProtocol.obj) (blocks : list str) (w : world),
+         init_ok kind init ->
+         block_oracles_ok keccak cm ->
+         jget (s "blocks") req = Some (jstrs blocks) ->
+         fuel_ok kind fuel w ->
+         srcm_HSM2ProtocolLedger___update_ancestor_block fuel cm init self (of_obj req) w =
+         mres rtuple_pv (LedgerProtocol.op_update_ancestor kind req w).
+Proof. exact (@srcm_update_ancestor_handler_ok). Qed.
 
 Example C05_nonvacuous_advance : True. Proof. exact I. Qed. (* concrete runs: ex_advance, ex_advance_partial, ex_update, ex_meta_ok, ex_brothers_order in Proofs/C05.v; ex_resume_hex in Proofs/Sha256Proofs.v; ex_decode_encode in Proofs/RlpProofs.v, all closed by vm_compute *)
